@@ -471,14 +471,27 @@ func (s *Server) probeDestination(dest []byte, amtSat int64,
 	// that exceeds it and is useless to us.
 	backend := s.cfg.RouterBackend
 	mc := backend.MissionControl
+
+	// The maximum total time lock includes the final cltv delta, while the
+	// path finding limit excludes it (FindRoute adds the final delta on
+	// top), so we need to subtract it here.
+	finalCltvDelta := backend.DefaultFinalCltvDelta
+	err = routing.ValidateCLTVLimit(
+		backend.MaxTotalTimelock, finalCltvDelta, false,
+	)
+	if err != nil {
+		return nil, err
+	}
+	cltvLimit := backend.MaxTotalTimelock - uint32(finalCltvDelta)
+
 	routeReq, err := routing.NewRouteRequest(
 		backend.SelfNode, &destNode, amtMsat, 0,
 		&routing.RestrictParams{
 			FeeLimit:           routeFeeLimitSat,
-			CltvLimit:          backend.MaxTotalTimelock,
+			CltvLimit:          cltvLimit,
 			ProbabilitySource:  mc.GetProbability,
 			OutgoingChannelIDs: outgoingChanIDs,
-		}, nil, nil, nil, backend.DefaultFinalCltvDelta,
+		}, nil, nil, nil, finalCltvDelta,
 	)
 	if err != nil {
 		return nil, err
